@@ -66,7 +66,7 @@ def generate(rng, idx, tier, variant):
         while prog['lags'] + prog['leads'] + 1 > n:
             n += 1
         sp['n'] = n
-        model = {'kind': 'parser', 'script': prog['script'], 'names': prog['names'], 'endo': prog['endo'], 'lags': prog['lags'], 'leads': prog['leads'], 'declared': prog['declared'], 'init': scripts.gen_data(rng, prog, n)}
+        model = {'kind': 'parser', 'script': prog['script'], 'names': list(prog['names']), 'endo': list(prog['endo']), 'lags': prog['lags'], 'leads': prog['leads'], 'declared': list(prog['declared']), 'init': scripts.gen_data(rng, prog, n)}
         names = list(prog['names'])
     else:
         model = S.gen_spec(rng, 'solver', tier)
@@ -76,6 +76,62 @@ def generate(rng, idx, tier, variant):
         names = model['endo'] + model['exo']
     al, topo = gen_aliases(rng, names)
     handles = {nm: [nm] + [a for a in al if resolve(al, a) == nm and a != nm] for nm in names}
+    if model['kind'] == 'parser' and rng.random() < 0.35:
+        # verbatim code (statements and excerpts in backticks, which the parser passes through as they stand) that spells
+        # its variables through aliases: "generated solution code sees the same data". The canonical twin's script spells
+        # the same code by the variables' own names.
+        def handle(nm_):
+            hs = [h for h in handles[nm_] if h != nm_]
+            return rng.choice(hs) if hs and rng.random() < 0.85 else nm_
+
+        def access(nm_, h_, form):
+            if h_.startswith('__') and form in (0, 3):
+                form = 1  # (Python mangles `self.__k` inside a class body: no such spelling exists in generated code)
+            return {0: f'self.{h_}[t]', 1: f"self['{h_}'][t]", 2: f"self['{h_}',self.span[t]]", 3: f'self.{h_}[t:t + 1][0]', 4: f"getattr(self, '{h_}')[t]"}[form]
+
+        la, lc, vb = [], [], {'forms': []}
+        plain = [x for x in names if x not in prog.get('params', []) and x not in prog.get('errs', [])]
+        if rng.random() < 0.7:
+            # an equation (for a variable of its own) with excerpts of verbatim code among its terms
+            parts_a, parts_c = ['0.5 * VB'], ['0.5 * VB']
+            for _ in range(rng.randint(1, 3)):
+                nm_ = rng.choice(names)
+                h_ = handle(nm_)
+                f_ = rng.randrange(5)
+                c_ = rng.choice(scripts.COEFS)
+                parts_a.append(f'{c_} * `{access(nm_, h_, f_)}`')
+                parts_c.append(f'{c_} * `{access(nm_, nm_, f_)}`')
+                vb['forms'].append(['read', f_, h_ != nm_])
+            la.append('VB = ' + ' + '.join(parts_a))
+            lc.append('VB = ' + ' + '.join(parts_c))
+            model['endo'] = model['endo'] + ['VB']
+            model['names'] = model['endo'] + [x for x in model['names'] if x not in model['endo']]
+            k_ = max(model['declared'].index(x) for x in model['endo'] if x != 'VB') + 1
+            model['declared'] = model['declared'][:k_] + ['VB'] + model['declared'][k_:]
+            model['init']['VB'] = [rng.choice([0.5, 1.0, 2.0]) for _ in range(n)]
+        if rng.random() < 0.6 or not la:
+            # a whole statement of verbatim code that assigns a variable through an alias (any variable: the parser does
+            # not look inside)
+            nm_, src_ = rng.choice(plain), rng.choice(names)
+            h_, hs_ = handle(nm_), handle(src_)
+            f_ = rng.choice([0, 1, 2])
+            g_ = rng.randrange(5)
+            la.append(f'`{access(nm_, h_, f_)} = 0.5 * {access(src_, hs_, g_)} + 0.25`')
+            lc.append(f'`{access(nm_, nm_, f_)} = 0.5 * {access(src_, src_, g_)} + 0.25`')
+            vb['forms'].append(['write', f_, h_ != nm_])
+            vb['forms'].append(['read', g_, hs_ != src_])
+        where = rng.choice(['end', 'end', 'start'])
+        sa, sc = '\n'.join(la), '\n'.join(lc)
+        model['script_canonical'] = (model['script'] + '\n' + sc) if where == 'end' else (sc + '\n' + model['script'])
+        model['script'] = (model['script'] + '\n' + sa) if where == 'end' else (sa + '\n' + model['script'])
+        if where == 'start' and 'VB' in model['endo']:
+            model['endo'] = ['VB'] + [x for x in model['endo'] if x != 'VB']
+            model['names'] = model['endo'] + [x for x in model['names'] if x not in model['endo']]
+            model['declared'] = ['VB'] + [x for x in model['declared'] if x != 'VB']
+        model['verbatim'] = vb
+        if 'VB' in model['endo']:
+            names = names + ['VB']
+            handles['VB'] = ['VB']
     pref = []
     r = rng.random()
     universe = names + [a for a in al if a not in names]
@@ -171,6 +227,19 @@ def build_classes(fsic, spec, ctx=None):
     from fsic.extensions import AliasMixin
 
     model = spec['model']
+    if model['kind'] == 'parser' and model.get('verbatim'):
+        # two scripts, one class each: verbatim code spelt through aliases under the alias mixin, and the same code spelt by
+        # the variables' own names for the canonical twin
+        base = probes.build_parser_class(fsic, dict(model, script=model['script_canonical']), ctx)
+        under = probes.build_parser_class(fsic, model, ctx)
+        if base is None or under is None:
+            raise S.BuildFailed()
+        if spec.get('tracer'):
+            from fsic.extensions import TracerMixin
+
+            base = type('TracedBase', (TracerMixin, base), {})
+            under = type('TracedBase', (TracerMixin, under), {})
+        return base, _mix(spec, under, AliasMixin)
     if model['kind'] == 'parser':
         base = probes.build_parser_class(fsic, model, ctx)
         if base is None:
@@ -181,13 +250,17 @@ def build_classes(fsic, spec, ctx=None):
         from fsic.extensions import TracerMixin
 
         base = type('TracedBase', (TracerMixin, base), {})
+    return base, _mix(spec, base, AliasMixin)
+
+
+def _mix(spec, base, AliasMixin):
     par = spec.get('parent')
     if spec.get('tracer') == 'tracer-first' and not par:
         from fsic.extensions import TracerMixin
 
         inner = base.__mro__[2] if base.__name__ == 'TracedBase' else base
         mixed = type('Aliased', (TracerMixin, AliasMixin, inner), {'ALIASES': dict(map(tuple, spec['aliases'])), 'PREFERRED_NAMES': list(spec['preferred'])})
-        return base, mixed
+        return mixed
     if par:
         parent = type('AliasedParent', (AliasMixin, base), {'ALIASES': dict(map(tuple, par['aliases']))})
         if par.get('instantiate_first'):
@@ -198,7 +271,7 @@ def build_classes(fsic, spec, ctx=None):
         mixed = type('Aliased', (parent,), {'ALIASES': dict(map(tuple, spec['aliases'])), 'PREFERRED_NAMES': list(spec['preferred'])})
     else:
         mixed = type('Aliased', (AliasMixin, base), {'ALIASES': dict(map(tuple, spec['aliases'])), 'PREFERRED_NAMES': list(spec['preferred'])})
-    return base, mixed
+    return mixed
 
 
 def _series(obj):
